@@ -426,3 +426,51 @@ func runC07_10(c *core.Ctx) {
 		}
 	}
 }
+
+func init() {
+	register(&core.Rule{ID: "C07.11", Prop: "C07", MinSites: 1,
+		Desc: "teardown runs once: an exported method that closes the event loops' pollers and listeners after the loops ran (Client.Stop) does so only on the isShutdown()==false edge, so a second call cannot close the same descriptor numbers again",
+		Run: runC07_11})
+	alias("C19", "C19.6", "C07.11", "stopping twice must be harmless")
+}
+
+func runC07_11(c *core.Ctx) {
+	v := vocabOf(c)
+	if v == nil {
+		return
+	}
+	cel := c.P.Func("", "engine.closeEventLoops")
+	isShutdown := c.P.Func("", "engine.isShutdown")
+	if !c.Need("closeEventLoops", cel) || !c.Need("isShutdown", isShutdown) {
+		return
+	}
+	n := 0
+	for _, f := range v.funcs {
+		if !ast.IsExported(f.Obj.Name()) || f.Obj.Name() == "Start" {
+			continue
+		}
+		const fRunning = 1
+		p := &flow.Problem{Must: true}
+		p.Edge = func(e *flow.Edge, in uint64) uint64 {
+			if e.Cond != nil && e.Tag == nil && !e.Sense {
+				if call, ok := ast.Unparen(e.Cond).(*ast.CallExpr); ok && flow.IsCall(f.Info, call, isShutdown) {
+					in |= fRunning
+				}
+			}
+			return in
+		}
+		sol := f.Graph().Solve(p)
+		sol.Walk(func(b *flow.Block, i int, nd ast.Node, before uint64) {
+			for _, call := range flow.Calls(nd) {
+				if flow.IsCall(f.Info, call, cel) {
+					n++
+					c.Check(before&fRunning != 0, f.Name, "closeEventLoops only if not shut down yet", call.Pos(), "a repeated call returns before touching any descriptor",
+						f.Obj.Name()+" tears the event loops down without first testing isShutdown(): calling it twice closes the pollers' descriptor numbers a second time – numbers that may meanwhile belong to files or sockets of the application", sol.Witness(b, fRunning)...)
+				}
+			}
+		})
+	}
+	if n == 0 {
+		c.Violate("gnet", "exported teardown entry", token.NoPos, "no exported method reaches closeEventLoops (Client.Stop is expected to)")
+	}
+}
